@@ -62,7 +62,11 @@ def build(case):
     import xarray as xr
     rng = random.Random(case["seed"])
     nx, nz = case["nx"], case["nz"]
-    xs = sorted(rng.sample([0.5, 1.0, 1.5, 2.0, 3.0, 4.5, 6.0, 10.0], nx))
+    if nx > 8:      # (histograms of longer series)
+        xs = [0.5 + i for i in range(nx)]
+    else:
+        xs = sorted(rng.sample([0.5, 1.0, 1.5, 2.0, 3.0, 4.5, 6.0, 10.0],
+                               nx))
     if case["ztype"] == "str":
         zs = ["k%02d" % i for i in range(nz)]
     elif case["ztype"] == "float":
@@ -593,7 +597,7 @@ def strategy(draw):
         case["p_nan"] = min(case["p_nan"], 0.2)
         case["bins"] = draw(st.sampled_from([None, 5, 12]))
         case["xlims_frac"] = draw(st.sampled_from([None, None, 0.2, 0.35]))
-        case["nx"] = 6
+        case["nx"] = draw(st.sampled_from([6, 6, 25, 40]))
         return case
     if kind in ("lineplot", "scatter"):
         case["x_is_var"] = draw(st.sampled_from([False, False, True])) \
